@@ -140,7 +140,10 @@ impl Rig {
                     return Err(fail(format!("client-run:unexpected-message:{}", kind), self.detail(&format!("Client::run() of c{} ended with UnexpectedMessageReceived({})", i, msg))));
                 }
                 Some(Err(e)) => {
-                    return Err(fail(format!("client-run:error:{}", variant(&format!("{:?}", e))), self.detail(&format!("Client::run() of c{} ended with {:?}", i, e))));
+                    // the connection gave up because the broker had already left its run loop
+                    let broker_gone = matches!(&*c.conn_result.borrow(), Some(Err(ConnErr::UnexpectedShutdown)));
+                    let q = if broker_gone { ":connection-lost-broker" } else { "" };
+                    return Err(fail(format!("client-run:error:{}{}", variant(&format!("{:?}", e)), q), self.detail(&format!("Client::run() of c{} ended with {:?}", i, e))));
                 }
                 Some(Ok(())) => {
                     if !stopped {
